@@ -1,6 +1,12 @@
 (* Properties_C01.v — C01: build -> save -> load returns the same content.
-   FULL STATEMENT (visible): for every state s reachable by the API with Inv s, complete frames and
-   content within capacity:  exists s', load (save s) = Ok s' /\ obs s' = canon (obs s).
+   FULL STATEMENT, PROVED (C01_load_save): for every object s whose header, parameter tree and frames are well formed
+   (the capacity limits of the format, no placeholder groups, header agreeing with the parameters, uniform frames),
+   load (save s) = Ok (reloaded s ...): the header with the data-start word, the canonical prologue, the tree with
+   upper-cased names and POINT:DATA_START = first data block, every x, y, z, residual and analog sample bit for bit with
+   the names bound from the labels.  Its hypotheses are shown satisfiable on an object with two frames
+   (C01_load_save_nonvacuous, obtained FROM the theorem, not by running load).  The stages below are its parts.
+   What the hypotheses exclude is listed in DESIGN.md 0.4 (placeholder groups of loaded files, non-zero reserved header
+   words, content beyond capacity, names differing only by case).
    Decided today by the C01 check on generated histories (direct oracle on the real library + byte
    and dump correspondence with the model).  Proved in Coq, for all inputs: the layout of the written
    file (C03), the round trip of the whole data section — which carries every x, y, z, RESIDUAL and
@@ -12,7 +18,7 @@
    C01_parameter_section_nonvacuous).  Remaining, validated but not proved: the 24 header fields, and the composition
    into load (save s). *)
 From Coq Require Import Lia ZifyN.
-From EZ Require Import Base Bytes Types Api Enc Dec Float32 Run Proofs_Bytes Proofs_Codec Proofs_Section Proofs_Record Proofs_Chain Proofs_ChainW.
+From EZ Require Import Base Bytes Types Api Enc Dec Float32 Run Proofs_Bytes Proofs_Codec Proofs_Section Proofs_Record Proofs_Chain Proofs_ChainW Proofs_HeaderCodec Proofs_RoundTrip.
 Local Open Scope N_scope.
 
 (* the frames of a saved object come back bit for bit: the data section written by save is read by the
@@ -62,7 +68,8 @@ Theorem C01_parameter_section : forall h pr gs sec blocks hb data st,
   Forall wf_item (items_v gs 1 (blocks + 1)) ->
   h_paddr h = 2 -> h_zeros h = 0 -> length hb = 512%nat ->
   st_fail st = false -> st_file st = hb ++ sec ++ data ->
-  exists st', read_parameters h st = Ok ((mkPro 1 80 (blocks - 1) 84, map (canon_g (blocks + 1)) gs), st').
+  exists st', read_parameters h st = Ok ((mkPro 1 80 (blocks - 1) 84, map (canon_g (blocks + 1)) gs), st') /\
+    st_fail st' = false /\ st_file st' = st_file st.
 Proof. exact read_parameters_written. Qed.
 Print Assumptions C01_parameter_section.
 
@@ -127,3 +134,106 @@ Proof.
   split; [vm_compute; reflexivity|]. split; [vm_compute; reflexivity|]. vm_compute. reflexivity.
 Qed.
 Print Assumptions C01_residual_kept.
+
+(* ---------------- THE FULL STATEMENT ---------------- *)
+Theorem C01_load_save : forall f_key f_tosize f_div s bytes sec blocks pn an,
+  save s = Ok bytes -> section_bytes (pro s) (groups s) = Ok (sec, blocks) ->
+  wf_hdr (hdr s) -> wf_header (hdr s) ->
+  ok_tree (groups s) -> (nds (recs_of (groups s) 1) <= 1)%nat ->
+  (forall g, In g (groups s) -> is_placeholder g = false /\ group_ok g) ->
+  blocks + 1 < 256 -> ps_start (pro s) = 1 ->
+  Forall wf_item (items_v (groups s) 1 (blocks + 1)) ->
+  (let s1 := mkState (with_dstart (hdr s) (blocks + 1)) (mkPro 1 80 (blocks - 1) 84) (map (canon_g (blocks + 1)) (groups s)) [] in
+   update_header f_key f_tosize f_div false s1 = ROk tt s1) ->
+  (let h := with_dstart (hdr s) (blocks + 1) in let gs := map (canon_g (blocks + 1)) (groups s) in
+   h_nb_frames h = nlen (frames s) /\ nlen (frames s) <= max_frames_vec /\
+   nlen (frames s) * (1 + 4 * h_points h + h_byframe h * (1 + h_nb_analogs h)) <= 1048576 /\
+   (if 0 <? h_points h then obind (group_named gs nm_POINT) (fun g => obind (param_named g nm_LABELS) values_as_string) = Ok pn else pn = []) /\
+   (if 0 <? h_nb_analogs h then obind (group_named gs nm_ANALOG) (fun g => obind (param_named g nm_LABELS) values_as_string) = Ok an else an = []) /\
+   (frames s <> [] -> (h_scale h < 0)%Z) /\
+   Forall (uniform (N.to_nat (h_points h)) (N.to_nat (h_byframe h)) (N.to_nat (h_nb_analogs h))) (frames s)) ->
+  load f_key f_tosize f_div bytes = Ok (reloaded s blocks pn an).
+Proof. exact load_save. Qed.
+Print Assumptions C01_load_save.
+
+(* the header stage on its own *)
+Theorem C01_header_block : forall h d st rest, wf_hdr h -> wf_header h -> u16 d ->
+  st_fail st = false -> st_file st = header_bytes h d ++ rest ->
+  read_header st = Ok (with_dstart h d, mkStream (st_file st) 512 rest false).
+Proof. exact read_header_written. Qed.
+Print Assumptions C01_header_block.
+
+(* non-vacuity: an object with a declared point, a rate and two frames meets every hypothesis; the conclusion is
+   obtained from the theorem *)
+Definition demo_run : option state :=
+  let rate := mkParam nm_RATE [] false TFloat [1] [] [1120403456] [] in
+  let f := mkFrame [mkPoint [97] 1065353216 1073741824 1077936128 1082130432] [] in
+  match step_x init (OPoint [97]) with ROk _ s1 =>
+  match step_x s1 (OParam nm_POINT rate) with ROk _ s2 =>
+  match step_x s2 (OFrame f None) with ROk _ s3 =>
+  match step_x s3 (OFrame f None) with ROk _ s4 => Some s4 | _ => None end | _ => None end | _ => None end | _ => None end.
+Definition demo_state : state := Eval vm_compute in match demo_run with Some s => s | None => init end.
+
+
+Lemma demo_section : exists sec, section_bytes (pro demo_state) (groups demo_state) = Ok (sec, 2).
+Proof. eexists. vm_compute. reflexivity. Qed.
+Print Assumptions demo_section.
+
+Lemma demo_hdr : wf_hdr (hdr demo_state) /\ wf_header (hdr demo_state).
+Proof.
+  unfold wf_hdr, wf_header, u16, int32, frame_no_ok, wf32, lab_ok, no_nul. cbn.
+  repeat split; try lia; try reflexivity; repeat constructor; cbn; try lia.
+Qed.
+Print Assumptions demo_hdr.
+
+Lemma demo_tree :
+  ok_tree (groups demo_state) /\ (nds (recs_of (groups demo_state) 1) <= 1)%nat /\
+  (forall g, In g (groups demo_state) -> is_placeholder g = false /\ group_ok g) /\
+  Forall wf_item (items_v (groups demo_state) 1 3).
+Proof.
+  split.
+  { intros g Hg Pl. cbn in Hg.
+    repeat (destruct Hg as [<-|Hg]; [split; [unfold wf_group_hdr, name_ok, desc_ok, no_nul; cbn; repeat split; try lia; repeat constructor; discriminate|
+       intros p Hp; cbn in Hp; repeat (destruct Hp as [<-|Hp]; [unfold ok_param; cbn; first [split; reflexivity | wfp]|]); destruct Hp]|]).
+    destruct Hg. }
+  split; [vm_compute; lia|]. split.
+  - intros g Hg. cbn in Hg.
+    repeat (destruct Hg as [<-|Hg]; [split; [reflexivity|split; [cbn; repeat constructor; cbn; intuition discriminate|intros p Hp; cbn in Hp; repeat (destruct Hp as [<-|Hp]; [discriminate|]); destruct Hp]]|]).
+    destruct Hg.
+  - cbn [items_v demo_state groups is_placeholder g_name g_params nlen length N.of_nat N.eqb andb map app item_of_param is_ds].
+    repeat (apply Forall_cons); try apply Forall_nil;
+      (cbn; first [ split; [lia|unfold wf_group_hdr, name_ok, desc_ok, no_nul; cbn; repeat split; try lia; repeat constructor; discriminate]
+                  | split; [lia|split; [wfp|cbn; lia]] ]).
+Qed.
+Print Assumptions demo_tree.
+
+Lemma demo_update_noop :
+  let s1 := mkState (with_dstart (hdr demo_state) 3) (mkPro 1 80 1 84) (map (canon_g 3) (groups demo_state)) [] in
+  update_header_x false s1 = ROk tt s1.
+Proof. vm_compute. reflexivity. Qed.
+Print Assumptions demo_update_noop.
+
+Lemma demo_data :
+  let h := with_dstart (hdr demo_state) 3 in let gs := map (canon_g 3) (groups demo_state) in
+  h_nb_frames h = nlen (frames demo_state) /\ nlen (frames demo_state) <= max_frames_vec /\
+  nlen (frames demo_state) * (1 + 4 * h_points h + h_byframe h * (1 + h_nb_analogs h)) <= 1048576 /\
+  (if 0 <? h_points h then obind (group_named gs nm_POINT) (fun g => obind (param_named g nm_LABELS) values_as_string) = Ok [[97]] else [[97]] = []) /\
+  (if 0 <? h_nb_analogs h then obind (group_named gs nm_ANALOG) (fun g => obind (param_named g nm_LABELS) values_as_string) = Ok [] else @nil bstr = []) /\
+  (frames demo_state <> [] -> (h_scale h < 0)%Z) /\
+  Forall (uniform (N.to_nat (h_points h)) (N.to_nat (h_byframe h)) (N.to_nat (h_nb_analogs h))) (frames demo_state).
+Proof.
+  cbv zeta. split; [vm_compute; reflexivity|]. split; [vm_compute; discriminate|]. split; [vm_compute; discriminate|].
+  split; [vm_compute; reflexivity|]. split; [vm_compute; reflexivity|]. split; [intros _; vm_compute; reflexivity|].
+  unfold uniform, wf_point, wf_chan, wf32. cbn. repeat constructor; cbn; lia.
+Qed.
+Print Assumptions demo_data.
+
+(* the round trip on the demo object, obtained from the theorem (not by running load) *)
+Example C01_load_save_nonvacuous : exists bytes, save_x demo_state = Ok bytes /\ load_x bytes = Ok (reloaded demo_state 2 [[97]] []).
+Proof.
+  destruct demo_section as [sec Hs]. destruct demo_hdr as [Wh Wl]. destruct demo_tree as (Hok & Hn & Hg & Wf).
+  assert (Sv : exists bytes, save_x demo_state = Ok bytes) by (unfold save_x, save; rewrite Hs; eexists; reflexivity).
+  destruct Sv as [bytes Sv]. exists bytes. split; [exact Sv|].
+  exact (load_save f_key_impl f_tosize_impl f_div_impl demo_state bytes sec 2 [[97]] [] Sv Hs Wh Wl Hok Hn Hg eq_refl eq_refl Wf demo_update_noop demo_data).
+Qed.
+Print Assumptions C01_load_save_nonvacuous.
